@@ -35,13 +35,17 @@ def directed(rng, tier):
       (the window size - hence the number of main-tree symbols - must be derived from the rounded sum)."""
     from vgen import oab, lzx, lz
     FRAME = 32768
-    def block(n, ref, kind="verbatim"):
+    def block(n, ref, kind="verbatim", runs=True):
         wb = oab.window_bits(((len(ref) + 32767) & ~32767) + n if ref else n)
         unit = bytes(rng.choice(b"abcdefghijklmnop ") for _ in range(rng.choice([700, 1500])))
         data = (unit * (n // len(unit) + 1))[:n]
+        if len(ref) >= 4096:
+            # the target starts with a piece of the START of the source: a match at (nearly) the largest distance the
+            # window allows, i.e. in the highest position slots - a decoder that sized the window smaller cannot follow
+            data = (ref[:2000] + data)[:n]
         toks = lz.greedy_tokens(data, lzx.max_offset(wb), 2, 32768, frame=FRAME, ref=ref, rng=rng)
         assert toks[-1][0] == "M"
-        frames, total, info = lzx.lzx_frames(toks, wb, delta=True, ref=ref, blocks=[(kind, n)], rng=rng)
+        frames, total, info = lzx.lzx_frames(toks, wb, delta=True, ref=ref, blocks=[(kind, n)], rng=rng, runs=runs)
         return data, b"".join(frames)
     for n in ([1 << 17] if tier == "quick" else [1 << 17, 1 << 18, 1 << 17]):
         kind = rng.choice(["verbatim", "aligned"])
@@ -54,12 +58,15 @@ def directed(rng, tier):
         f = oab.patch_file([{"data": data, "payload": payload, "source_size": 0}], 0)
         yield {"kind": "oab", "files": {"patch.oab": f, "base.oab": b""}, "members": [{"name": b"out", "data": data}],
                "meta": {"order": ["patch.oab", "base.oab"], "blocks": [{"lzx_blocks": [kind]}], "directed": f"patch-block-fills-window-2^{n.bit_length() - 1}"}}
-    for (ss, ds) in ([(70000, 50000)] if tier == "quick" else [(70000, 50000), (200000, 40000), (32769, 98300), (1, 131071)]):
+    for (ss, ds) in ([(70000, 50000), (200000, 40000)] if tier == "quick" else [(70000, 50000), (200000, 40000), (32769, 98300), (1, 131071), (140000, 110000)]):
         ref = bytes(rng.randrange(256) for _ in range(ss))
-        data, payload = block(ds, ref)
-        f = oab.patch_file([{"data": data, "payload": payload, "source_size": ss}], ss)
-        yield {"kind": "oab", "files": {"patch.oab": f, "base.oab": ref}, "members": [{"name": b"out", "data": data}],
-               "meta": {"order": ["patch.oab", "base.oab"], "blocks": [{"lzx_blocks": ["verbatim"]}], "directed": f"window-straddle-{ss}+{ds}"}}
+        # with and without pretree run symbols: without them every code length is sent on its own, so a decoder that
+        # derives a different number of position slots from the sizes loses its place in the tree description at once
+        for runs in (True, False):
+            data, payload = block(ds, ref, runs=runs)
+            f = oab.patch_file([{"data": data, "payload": payload, "source_size": ss}], ss)
+            yield {"kind": "oab", "files": {"patch.oab": f, "base.oab": ref}, "members": [{"name": b"out", "data": data}],
+                   "meta": {"order": ["patch.oab", "base.oab"], "blocks": [{"lzx_blocks": ["verbatim"]}], "directed": f"window-straddle-{ss}+{ds}-runs{int(runs)}"}}
 
 def generate(ctx):
     rng = ctx.rng
